@@ -355,6 +355,14 @@ psRes_t psRsaPssVerify(psPool_t *pool,
     {
         return PS_ARG_FAIL;
     }
+    if (sigLen != key->keysize)
+    {
+        /* RFC 8017, 8.1.2 step 1: the signature has the length of the
+           modulus (no extra leading zeros, none stripped). */
+        psTraceCrypto("psRsaPssVerify: signature length is not the modulus length\n");
+        *verifyResult = PS_FALSE;
+        return PS_VERIFICATION_FAILED;
+    }
     em = psMalloc(pool, key->keysize);
     if (em == NULL)
     {
